@@ -1,7 +1,9 @@
 mod c10;
+mod c14;
 mod c15;
 mod c16;
 mod core;
+mod reflex;
 mod refpos;
 mod synchecks;
 mod texts;
@@ -13,11 +15,12 @@ static C01: synchecks::SynCheck = synchecks::SynCheck { mode: synchecks::Mode::L
 static C02: synchecks::SynCheck = synchecks::SynCheck { mode: synchecks::Mode::Totality };
 
 static C10: c10::C10 = c10::C10;
+static C14: c14::C14 = c14::C14;
 static C15: c15::C15 = c15::C15;
 static C16: c16::C16 = c16::C16;
 
 fn registry() -> Vec<&'static dyn Check> {
-    vec![&C01, &C02, &C10, &C15, &C16]
+    vec![&C01, &C02, &C10, &C14, &C15, &C16]
 }
 
 fn usage() -> ! {
